@@ -162,7 +162,8 @@ def classify(run, tags, spans, fns, sections, lines, fn_props):
             continue
         sps = [s for s in d.get("spans", []) if s["file_name"].endswith("griddle_verus.rs")]
         prim = [s for s in sps if s["is_primary"]]
-        is_verif = verified_stage and any(m in msg for m in VERIFICATION_MESSAGES)
+        # once Verus has reached the verification stage every error is a failed obligation (or a solver limit)
+        is_verif = verified_stage
         is_undec = any(m.lower() in msg.lower() for m in UNDECIDED_MESSAGES)
         if not is_verif or is_undec:
             f = fn_at(prim[0]["line_start"]) if prim else None
@@ -181,11 +182,9 @@ def classify(run, tags, spans, fns, sections, lines, fn_props):
         f = None
         site_line = None
         for s in sps:
-            t = None
-            for ln in range(s["line_start"], s["line_end"] + 1):
-                t = tag_at(ln)
-                if t:
-                    break
+            # the tag of a span is the tag of the clause/statement it *starts* in: a span that merely contains
+            # tagged lines (e.g. "at the end of the function body") does not inherit their tags
+            t = tag_at(s["line_start"])
             if t:
                 names.append(t[0])
                 props.update(t[1])
@@ -256,6 +255,7 @@ def identity_check(gen_text, repo, meta):
     srcs = {}
     for m in re.finditer(r"//@fn (.+?) (\S+):(\d+)-(\d+)( external)?\s*\n(.*?)\n//@endfn", gen_text, re.S):
         key, path, a, b, body = m.group(1), m.group(2), int(m.group(3)), int(m.group(4)), m.group(6)
+        body = re.sub(r"^//@stake [^\n]*\n", "", body)
         body = re.sub(r"^#\[verifier::external_body\]\n", "", body)
         fspec_attr = re.match(r"^(#\[verifier::[^\n]*\]\n)*", body)
         body = body[fspec_attr.end():]
@@ -347,6 +347,9 @@ def run_pipeline(repo="/repo", workdir=None, keep=False, seed=0, extra_verus=(),
                                                            "text": lines[ln - 1].strip()[:240]})
                     if f:
                         fn_props.setdefault(f["key"], set()).add(p)
+        for mf in meta["functions"]:
+            for p_ in mf.get("stake", []):
+                fn_props.setdefault(mf["key"], set()).add(p_)
         res["fn_props"] = {k: sorted(v) for k, v in fn_props.items()}
         res["prop_clauses"] = prop_clauses
         # identity
@@ -437,16 +440,19 @@ def run_pipeline(repo="/repo", workdir=None, keep=False, seed=0, extra_verus=(),
 def run_with_demotion(repo="/repo", **kw):
     """auto-demotion: a construct Verus rejects inside one function => that function becomes external_body,
     the run is repeated and the function is reported UNDECIDED (never an alarm)"""
-    demote = []
+    demote, log = [], []
     for _ in range(6):
         res = run_pipeline(repo=repo, demote=tuple(demote), **kw)
         if res.get("undecided"):
+            res["demotion_log"] = log
             return res
         new = sorted(set(s["fn"] for s in res["structural"] if s["fn"] and s["fn"] not in demote))
         if not new:
             break
+        log += [s for s in res["structural"] if s["fn"] in new]
         demote += new
     res["demoted"] = demote
+    res["demotion_log"] = log
     return res
 
 
@@ -467,8 +473,8 @@ if __name__ == "__main__":
             print("profile", prof, res["runs"].get(prof, {}).get("verified"), "verified;", len(fl), "failed obligations")
             for f in fl:
                 print("   ", f["fn"], f["name"], f["props"], "|", f["msg"], "|", f["text"][:100])
-        for s in res.get("structural", []):
-            print("STRUCTURAL", s["profile"], s["fn"], s["msg"][:200])
+        for s in res.get("structural", []) + res.get("demotion_log", []):
+            print("STRUCTURAL", s["profile"], s["fn"], s["msg"][:300])
         print("vacuity:", res.get("vacuity"))
         print("identity:", res.get("identity"))
         print("wall:", res.get("wall"))
